@@ -46,8 +46,12 @@ func (c *InternalCron) ScheduleEvent(ctx *core.Context, se *ScheduledEvent) erro
 		return err
 	}
 
+	// The event is for the location that schedules it.  (The context
+	// can be working on another location by the time the job fires:
+	// a request that loads a parent location goes on with the child.)
+	loc := ctx.Location()
+
 	fn := func(t time.Time) error {
-		loc := ctx.Location()
 		if loc == nil {
 			return errors.New("no location in ctx")
 		}
